@@ -4,7 +4,7 @@ package bal
 
 // C15, encoding part — every construction list that can be built by a bounded
 // sequence of recording calls (AccountRead, StorageRead, StorageWrite,
-// BalanceChange, NonceChange, CodeChange over 2 addresses, 2 slots, 3 block
+// BalanceChange, NonceChange, CodeChange over 2 addresses, 5 slot keys of mixed byte width, 3 block
 // access indices) and every Merge of two such lists is converted to its encoded
 // form and compared with a reference set model; the encoded form must be strictly
 // ordered and duplicate free, must pass Validate exactly when no index exceeds
@@ -14,6 +14,7 @@ package bal
 import (
 	"bytes"
 	"fmt"
+	"math/big"
 	"sort"
 	"testing"
 
@@ -27,7 +28,15 @@ import (
 var (
 	// deliberately not in ascending order of construction
 	c15eAddrs = [2]common.Address{common.HexToAddress("0xbb00000000000000000000000000000000000001"), common.HexToAddress("0x0a00000000000000000000000000000000000002")}
-	c15eSlots = [2]common.Hash{common.HexToHash("0x0200"), common.HexToHash("0x01")}
+	// slot keys of mixed byte width (as integers: 0x0100 > 0x30 > 0x02 although its leading byte is smaller, a
+	// full-width key starting 0x1f, and 2^255), deliberately not in ascending order
+	c15eSlots = [5]common.Hash{
+		common.HexToHash("0x0100"),
+		common.HexToHash("0x02"),
+		common.HexToHash("0x1f00000000000000000000000000000000000000000000000000000000000001"),
+		common.HexToHash("0x30"),
+		common.HexToHash("0x8000000000000000000000000000000000000000000000000000000000000000"),
+	}
 	c15eIdx   = [3]uint32{2, 1, 4} // 4 is beyond the transaction count (2 transactions -> indices 0..3)
 	c15eCodes = [2][]byte{{0x60, 0x00}, {}}
 )
@@ -266,9 +275,107 @@ func c15eExpect(enc *BlockAccessList, m c15eModel) error {
 	return nil
 }
 
+// c15eReferenceRLP encodes the model directly, in canonical order (addresses, slots and indices ascending as
+// unsigned integers / byte strings), as nested RLP lists per EIP-7928:
+// [address, [[slot, [[index, value]...]]...], [slot...], [[index, balance]...], [[index, nonce]...], [[index, code]...]].
+func c15eReferenceRLP(m c15eModel) ([]byte, error) {
+	big32 := func(h common.Hash) *big.Int { return new(big.Int).SetBytes(h[:]) }
+	bySlot := func(keys []int) {
+		sort.Slice(keys, func(i, j int) bool { return big32(c15eSlots[keys[i]]).Cmp(big32(c15eSlots[keys[j]])) < 0 })
+	}
+	var order []int
+	for a := range m {
+		order = append(order, a)
+	}
+	sort.Slice(order, func(i, j int) bool { return bytes.Compare(c15eAddrs[order[i]][:], c15eAddrs[order[j]][:]) < 0 })
+	list := []interface{}{}
+	for _, a := range order {
+		acc := m[a]
+		var ws, rs []int
+		for k := range acc.writes {
+			ws = append(ws, k)
+		}
+		for k := range acc.reads {
+			rs = append(rs, k)
+		}
+		bySlot(ws)
+		bySlot(rs)
+		changes := []interface{}{}
+		for _, k := range ws {
+			writes := []interface{}{}
+			for _, idx := range c15eSortedKeys(acc.writes[k]) {
+				writes = append(writes, []interface{}{uint64(idx), new(big.Int).SetUint64(acc.writes[k][idx])})
+			}
+			changes = append(changes, []interface{}{big32(c15eSlots[k]), writes})
+		}
+		reads := []interface{}{}
+		for _, k := range rs {
+			reads = append(reads, big32(c15eSlots[k]))
+		}
+		bals, nonces, codes := []interface{}{}, []interface{}{}, []interface{}{}
+		for _, idx := range c15eSortedKeys(acc.bal) {
+			bals = append(bals, []interface{}{uint64(idx), new(big.Int).SetUint64(acc.bal[idx])})
+		}
+		for _, idx := range c15eSortedKeys(acc.nonce) {
+			nonces = append(nonces, []interface{}{uint64(idx), acc.nonce[idx]})
+		}
+		for _, idx := range c15eSortedKeys(acc.code) {
+			codes = append(codes, []interface{}{uint64(idx), c15eCodes[acc.code[idx]]})
+		}
+		list = append(list, []interface{}{c15eAddrs[a][:], changes, reads, bals, nonces, codes})
+	}
+	return rlp.EncodeToBytes(list)
+}
+
+// c15eStrictOrder is an ordering check of the encoded object that does not look at the model: addresses, write
+// slots, read slots and all index lists strictly ascending (slots compared as 256-bit unsigned integers).
+func c15eStrictOrder(enc *BlockAccessList) error {
+	for i := range *enc {
+		acc := &(*enc)[i]
+		if i > 0 && bytes.Compare((*enc)[i-1].Address[:], acc.Address[:]) >= 0 {
+			return fmt.Errorf("encoded accounts not strictly ascending at position %d", i)
+		}
+		for j := range acc.StorageChanges {
+			if j > 0 && acc.StorageChanges[j-1].Slot.ToBig().Cmp(acc.StorageChanges[j].Slot.ToBig()) >= 0 {
+				return fmt.Errorf("%x: write slots not strictly ascending: %v then %v", acc.Address, acc.StorageChanges[j-1].Slot, acc.StorageChanges[j].Slot)
+			}
+			w := acc.StorageChanges[j].SlotChanges
+			for k := 1; k < len(w); k++ {
+				if w[k-1].BlockAccessIndex >= w[k].BlockAccessIndex {
+					return fmt.Errorf("%x: write indices of slot %v not strictly ascending", acc.Address, acc.StorageChanges[j].Slot)
+				}
+			}
+		}
+		for j := 1; j < len(acc.StorageReads); j++ {
+			if acc.StorageReads[j-1].ToBig().Cmp(acc.StorageReads[j].ToBig()) >= 0 {
+				return fmt.Errorf("%x: read slots not strictly ascending: %v then %v", acc.Address, acc.StorageReads[j-1], acc.StorageReads[j])
+			}
+		}
+		for j := 1; j < len(acc.BalanceChanges); j++ {
+			if acc.BalanceChanges[j-1].BlockAccessIndex >= acc.BalanceChanges[j].BlockAccessIndex {
+				return fmt.Errorf("%x: balance change indices not strictly ascending", acc.Address)
+			}
+		}
+		for j := 1; j < len(acc.NonceChanges); j++ {
+			if acc.NonceChanges[j-1].BlockAccessIndex >= acc.NonceChanges[j].BlockAccessIndex {
+				return fmt.Errorf("%x: nonce change indices not strictly ascending", acc.Address)
+			}
+		}
+		for j := 1; j < len(acc.CodeChanges); j++ {
+			if acc.CodeChanges[j-1].BlockAccessIndex >= acc.CodeChanges[j].BlockAccessIndex {
+				return fmt.Errorf("%x: code change indices not strictly ascending", acc.Address)
+			}
+		}
+	}
+	return nil
+}
+
 // c15eEncoding checks Validate / RLP round trip / hash, and returns the number of single edits tried.
 func c15eEncoding(b *ConstructionBlockAccessList, m c15eModel) (int, error) {
 	enc := b.ToEncodingObj()
+	if err := c15eStrictOrder(enc); err != nil {
+		return 0, fmt.Errorf("%v\n%s", err, enc.PrettyPrint())
+	}
 	if err := c15eExpect(enc, m); err != nil {
 		return 0, err
 	}
@@ -283,6 +390,13 @@ func c15eEncoding(b *ConstructionBlockAccessList, m c15eModel) (int, error) {
 	b1, err := rlp.EncodeToBytes(enc)
 	if err != nil {
 		return 0, fmt.Errorf("encode: %v", err)
+	}
+	ref, err := c15eReferenceRLP(m)
+	if err != nil {
+		return 0, fmt.Errorf("reference encoding: %v", err)
+	}
+	if !bytes.Equal(ref, b1) || enc.Hash() != crypto.Keccak256Hash(ref) {
+		return 0, fmt.Errorf("encoding %x (hash %x) differs from the canonical reference encoding of the model %x (hash %x)", b1, enc.Hash(), ref, crypto.Keccak256Hash(ref))
 	}
 	var via bytes.Buffer
 	if err := b.EncodeRLP(&via); err != nil || !bytes.Equal(via.Bytes(), b1) {
@@ -473,13 +587,17 @@ func c15eAlphabet() []c15eOp {
 	for a := 0; a < 2; a++ {
 		ops = append(ops, c15eOp{kind: 0, a: a})
 	}
-	for s := 0; s < 2; s++ {
+	for s := range c15eSlots {
 		ops = append(ops, c15eOp{kind: 1, a: 0, s: s})
-		for i := 0; i < 3; i++ {
-			ops = append(ops, c15eOp{kind: 2, a: 0, s: s, i: i, v: uint64(5 + i)})
+		if s == 0 {
+			for i := 0; i < 3; i++ {
+				ops = append(ops, c15eOp{kind: 2, a: 0, s: s, i: i, v: uint64(5 + i)})
+			}
+		} else {
+			ops = append(ops, c15eOp{kind: 2, a: 0, s: s, i: 1, v: uint64(5 + s)})
 		}
 	}
-	ops = append(ops, c15eOp{kind: 1, a: 1, s: 0}, c15eOp{kind: 2, a: 1, s: 0, i: 1, v: 0})
+	ops = append(ops, c15eOp{kind: 1, a: 1, s: 2}, c15eOp{kind: 2, a: 1, s: 0, i: 1, v: 0})
 	for i := 0; i < 3; i++ {
 		ops = append(ops, c15eOp{kind: 3, a: 0, i: i, v: uint64(100 + i)})
 	}
@@ -495,11 +613,12 @@ func TestVerif_C15_Encoding(t *testing.T) {
 		ops := c15eAlphabet()
 		seqLen := mc.Pick(r, 3, 4)
 		mergeLen := mc.Pick(r, 2, 2)
-		r.Rule(fmt.Sprintf("all sequences of <= %d recording calls over an alphabet of %d calls (2 addresses, 2 slots, block access indices {1,2,4} with 2 transactions) "+
+		r.Rule(fmt.Sprintf("all sequences of <= %d recording calls over an alphabet of %d calls (2 addresses, 5 slot keys of mixed byte width used for reads and writes, block access indices {1,2,4} with 2 transactions) "+
 			"build a construction list; all ordered pairs of lists built by <= %d calls (quick: one of the two by <= 1 call) are merged; each resulting list is one case; distinct = distinct encodings", seqLen, len(ops), mergeLen))
 		r.Bound("alphabet", len(ops))
 		r.Bound("max_calls", seqLen)
 		r.Bound("max_calls_per_merge_operand", mergeLen)
+		r.Assume("the encoding and its hash must equal an RLP encoding built directly from the model as nested lists in canonical order (slots ordered as 256-bit integers)")
 		r.Assume("reference = set model of the recording calls (a written slot is never a read; later call wins per index); expected encoding = model sorted by address / slot / index")
 		var edits, lists int64
 		// enumerate sequences by index in base len(ops), sharded on the first call
